@@ -365,6 +365,35 @@ def codon_class(letters):
     return fn
 
 
+def codon_isolation(first):
+    """a held Codon object keeps all its answers whatever other codon (incl. RNA spelling / other case) is constructed afterwards"""
+
+    def fn(j, k, a, b, c, low):
+        j, k, a, b, c, low = concretize(j, k, a, b, c, low)
+        with untraced():
+            from inscripta.biocantor.gene.codon import Codon, TranslationTable
+
+            x = "ACGT"[first] + "ACGT"[j] + "ACGT"[k]
+            y = "ACGTU"[a] + "ACGTU"[b] + "ACGTU"[c]
+            if low:
+                y = y.lower()
+
+            def answers(cd):
+                return (str(cd), cd.value, hash(cd), cd.translate(), cd.translate(strict=False), cd.is_strict_codon, cd.is_stop_codon, cd.is_canonical_start_codon,
+                        tuple(cd.is_start_codon_in_specific_translation_table(t) for t in TranslationTable), tuple(sorted(str(z) for z in cd.synonymous_codons())))
+
+            cx = Codon(x)
+            before = answers(cx)
+            fwd = _ref_tables()[0]
+            cy = Codon(y)
+            ok = answers(cx) == before and before[0] == x and before[3] == fwd[x]
+            ok = ok and Codon(x) is cx and answers(Codon(x)) == before
+            ok = ok and (cy is cx) == (y.upper() == x) and str(cy) == y.upper()
+            return ok
+
+    return fn
+
+
 def obligations(tier):
     out = [
         Obl("tables_codons", _smt_tables, {}, None, kind="smt", twin=False, cost=20, concrete=_tables_concrete,
@@ -392,6 +421,14 @@ def obligations(tier):
                    lambda i, j, k: 0 <= i and i <= 3 and 0 <= j and j <= 3 and 0 <= k and k <= 3, budget=200, cost=15,
                    desc="real Codon class on all 64 strict codons: translate, stop/start predicates per table, synonymous codons, case-insensitive singleton",
                    bounds="64 strict codons (indices closed by the solver)", examples=[dict(i=0, j=3, k=2)]))
+    for first in range(4):
+        out.append(Obl("codon_singletons_isolated_%s" % "ACGT"[first], codon_isolation(first), dict(j=int, k=int, a=int, b=int, c=int, low=bool),
+                       (lambda q: (lambda j, k, a, b, c, low: 0 <= j and j <= 3 and 0 <= k and k <= 3 and 0 <= a and a <= 4 and 0 <= b and b <= 4 and 0 <= c and
+                                   c <= 4 and not (q and low)))(tier == "quick"),
+                       budget=600, cost=40,
+                       desc="a held strict Codon starting with %s keeps every answer (translate, predicates, synonyms, str, hash, identity) after ANY other codon over "
+                            "ACGTU (upper or lower case) is constructed: the singleton table never aliases two spellings" % "ACGT"[first],
+                       bounds="16 held codons x 125 constructed codons%s (closed by the solver)" % ("" if tier == "quick" else " x 2 cases"), examples=[dict(j=1, k=2, a=0, b=4, c=2, low=False)]))
     if True:
         for first in range(16):
             out.append(Obl("codon_class_iupac_%s" % LETTERS[first], codon_class(LETTERS), {"i": int, "j": int, "k": int},
